@@ -229,7 +229,7 @@ Section Vtk.
             | [a; b; c] =>
                 if negb (forallb (fun k => 0 <? k)%Z ns) then Err ValueE else
                 let nx := Z.to_nat a in let ny := Z.to_nat b in let nz := Z.to_nat c in
-                (* reshape(*reversed(n), dim) *)
+                (* reshape to (nz, ny, nx, dim) *)
                 if (dim =? 0)%nat || negb (length payload =? nx * ny * nz * dim)%nat then Err ValueE else
                 do valid <-
                   match find_last "valid" arrays None with
